@@ -13,6 +13,7 @@
 //   group 7  CooperativeModel / CooperativeMaximumLikelihoodModel / CooperativeThompsonModel sampling overloads and getters,
 //            CooperativeExperience::getA, MDP::makeQFunction
 //   group 8  printSysAdminRing / printSysAdminGrid (both RETURN a std::string, nothing is printed), TigerAntelope
+//   group 9  TigerAntelope on the 2x2 torus (own index: undefined behaviour in the library, see groupTigerTinyTorus)
 // NOT called: Bandit::FlattenedModel<Dist>::convertA — declared in FlattenedModel.hpp:53 but defined nowhere (a call does not link).
 // Every call follows the documented sequence with arguments inside the documented domains; members are called on the concrete
 // type.  Oracles are cheap and certain: indices inside the factor space, sizes, getter = setter, probabilities in [0,1], the
@@ -64,7 +65,7 @@ namespace FM = AIToolbox::Factored::MDP;
 using verif::Rng;
 
 inline void emit(const char * name, bool ok) { verif::Line l; l << "C10" << "range" << name << "|" << ok; l.emit(); }
-inline void stat(const char * what) { std::printf("#stat api_fmdp_%s 1\n", what); }
+inline void stat(const char * what) { std::printf("#stat api_fmdp_%s 1\n", what); std::fflush(stdout); }
 inline void reseed(Rng & rng) { AI::Seeder::setRootSeed((unsigned)rng.next()); }
 inline bool near(double a, double b, double tol = 1e-9) { return std::fabs(a - b) <= tol * std::max(1.0, std::max(std::fabs(a), std::fabs(b))); }
 
@@ -325,7 +326,7 @@ template <class P> inline bool indicatorPolicyOk(const P & p, const F::Action & 
     double sum = 0.0; bool ok = true;
     for (size_t id = 0; id < spaceSize(A); ++id) {
         F::Action a = nthValue(A, id);
-        double pr = p.getActionProbability(a);
+        double pr = p.P::getActionProbability(a);       // qualified: a direct (non-virtual) reference to the member of the concrete class
         if (!(pr == 0.0 || pr == 1.0)) ok = false;
         if ((a == played) != (pr == 1.0)) ok = false;
         sum += pr;
@@ -721,7 +722,7 @@ inline size_t countMachineLetters(const std::string & s) { size_t n = 0; for (ch
 inline void groupEnvironments(Rng & rng) {
     reseed(rng);
     {
-        size_t agents = (size_t)rng.range(1, 12);
+        size_t agents = (size_t)rng.range(1, rng.coin(1, 4) ? 30 : 12);
         F::State s(agents * 2); for (auto & x : s) x = (size_t)rng.below(3); s.shrink_to_fit();
         std::string out = FM::printSysAdminRing(s);
         std::printf("#stat api_fmdp_ring_agents_%zu 1\n", agents);
@@ -765,6 +766,28 @@ inline void groupEnvironments(Rng & rng) {
     }
 }
 
+// ------------------------------------------------------------------------------------------------ group 9: TigerAntelope on the 2x2 torus
+// Kept in its own index because it ends the process under the sanitizers: on a 2x2 torus the antelope has only two distinct
+// neighbouring cells, both tigers can stand on them, and TigerAntelope::sampleSRs (TigerAntelope.cpp:66-80) then draws from an
+// EMPTY goodDirections vector (uniform_int_distribution(0, size_t(-1)) and an index into a null vector).  The constructor
+// documents no minimum size.  Compile with -DC10_API_FMDP_NO_TINY_TORUS to leave the group out.
+inline void groupTigerTinyTorus(Rng & rng) {
+    reseed(rng);
+    FM::TigerAntelope env(2, 2);
+    const size_t ant = env.getAntelopeState();
+    F::State S = env.getS(); F::Action A = env.getA();
+    std::vector<size_t> freeCells; for (size_t c = 0; c < 4; ++c) if (c != ant) freeCells.push_back(c);
+    bool ok = S == F::State{4, 4};
+    stat("tiger_2x2");
+    for (int t = 0; t < 40 && ok; ++t) {
+        size_t i = (size_t)rng.below(3), j = (i + 1 + (size_t)rng.below(2)) % 3;
+        F::State s{freeCells[i], freeCells[j]};
+        auto [s1, r] = env.sampleSRs(s, randValue(rng, A));
+        if (!inSpace(s1, S) || r.size() != 2) ok = false;
+    }
+    emit("TigerAntelope.torus_2x2_sampleSRs_states_in_space", ok);
+}
+
 } // namespace fmdp_detail
 
 inline void api_fmdp(verif::Rng & rng, long idx) {
@@ -781,7 +804,11 @@ inline void api_fmdp(verif::Rng & rng, long idx) {
         case 8:  groupLearners(rng); break;
         case 9:  groupModels(rng); break;
         case 10: groupEnvironments(rng); break;
+#ifndef C10_API_FMDP_NO_TINY_TORUS
+        default: groupTigerTinyTorus(rng); break;
+#else
         default: groupCpsQueue(rng); break;
+#endif
     }
 }
 
